@@ -259,17 +259,20 @@ Section Rescale.
   Definition free_pairs (resc orig : list T) (fixed : list bool) : list (T * T) :=
     map fst (filter (fun x : (T * T) * bool => negb (snd x)) (combine (combine resc orig) fixed)).
 
-  (** the breakpoints handed to [piecewise_scale_posterior] by
-      [ExpectationPropagation.rescale] (variational.py:785-808):
+  (** the breakpoint recovery of variational.py:802-808, then the breakpoints handed to
+      [piecewise_scale_posterior] by [ExpectationPropagation.rescale] (variational.py:785-808):
       (original_breaks, rescaled_breaks, rescaled_nodes_time).
       Zero iterations: the code has no breaks ([None]). *)
+  Definition recover_breaks (means : list T) (fixed : list bool) (x' rb : list T) : option (list T) :=
+    let u := uniq_first (free_pairs x' means fixed) in
+    piecewise_scale_point_estimate rb (map (fun _ => false) rb)
+      (zero N :: map fst u) (zero N :: map snd u).
+
   Definition ep_rescale_breaks (means : list T) (fixed : list bool) (liks : list (T * T))
       (edges : list (nat * nat)) (cpss : list (list nat)) : option (list T * list T * list T) :=
     match rescale_loop liks edges fixed cpss means None with
     | Some (x', Some (_, rb)) =>
-        let u := uniq_first (free_pairs x' means fixed) in
-        match piecewise_scale_point_estimate rb (map (fun _ => false) rb)
-                (zero N :: map fst u) (zero N :: map snd u) with
+        match recover_breaks means fixed x' rb with
         | None => None
         | Some ob' => Some (ob', rb, x')
         end
